@@ -270,3 +270,15 @@ End Assemble.
 Arguments insert_by_id {A} x l. Arguments sort_by_id {A} l.
 Arguments slots {V} blocks. Arguments take_from {V} k st. Arguments fill {V} sl st.
 Arguments assemble_impl {V} blocks. Arguments assemble_spec {V} blocks.
+
+(* ------------------------------------------------ rigid motions (spec, over R)
+   M M^T = s^2 I  (rows pairwise orthogonal, each of squared length s^2):
+   rotations and reflections (s = 1), uniform scalings (M = lambda I, s = |lambda|)
+   and their compositions.  For square matrices this is equivalent to M^T M = s^2 I. *)
+Definition similarity (M : m33 R) (s : R) : Prop :=
+  match M with (r0, r1, r2) =>
+    dot ROps r0 r0 = (s * s)%R /\ dot ROps r1 r1 = (s * s)%R /\ dot ROps r2 r2 = (s * s)%R /\
+    dot ROps r0 r1 = 0%R /\ dot ROps r0 r2 = 0%R /\ dot ROps r1 r2 = 0%R end.
+Definition rotation (M : m33 R) : Prop := similarity M 1 /\ mdet ROps M = 1%R.
+Definition reflection (M : m33 R) : Prop := similarity M 1 /\ mdet ROps M = (-1)%R.
+Definition scaling (lam : R) : m33 R := ((lam, 0, 0), (0, lam, 0), (0, 0, lam))%R.
